@@ -508,7 +508,7 @@ def configs(tier):
           'RotatedPlanar3DCode(2,2,2)', 'Color666PlanarCode(2,2)', 'RhombicPlanarCode(2,2,2)', 'Color488Code(2,2)']
     if tier != 'quick':
         bp += ['Planar2DCode(2,3)', 'Toric3DCode(2,2,2)/XZZX/z', 'XCubeCode(2,2,2)', 'RhombicPlanarCode(2,2,2)/Checkerboard_XZZX',
-               'RhombicToricCode(2,2,2)', 'HollowRhombicCode(2,2,3)', 'Color666ToricCode(2,2)', 'Color3DCode(2,2,2)',
+               'RhombicToricCode(2,2,2)', 'HollowRhombicCode(2,2,3)', 'Color666ToricCode(2,2)',
                'HollowPlanar3DCode(2,2,2)', 'Planar2DCode(2,3)/XY', 'Color488Code(2,2)/XXZZ']
     out += [f'bposd {c} noupdate' for c in bp]
     out += ['bposd RotatedPlanar2DCode(2,2) update', 'bposd Planar2DCode(2,2) update']
